@@ -19,6 +19,34 @@ mod wincomm {
     include!(concat!(env!("OUT_DIR"), "/win_comm.rs"));
 }
 
+/// the communicator under test: the thread-based one extracted from the source text, or the library's own
+/// (poll()-based on this platform) -- the same scenarios, the same records, the real kernel in both cases
+enum AnyComm {
+    Win(wincomm::Communicator),
+    Unix(subprocess::Communicator),
+}
+type Capture = (Option<Vec<u8>>, Option<Vec<u8>>);
+impl AnyComm {
+    fn limit_size(self, n: usize) -> AnyComm {
+        match self {
+            AnyComm::Win(c) => AnyComm::Win(c.limit_size(n)),
+            AnyComm::Unix(c) => AnyComm::Unix(c.limit_size(n)),
+        }
+    }
+    fn limit_time(self, d: Duration) -> AnyComm {
+        match self {
+            AnyComm::Win(c) => AnyComm::Win(c.limit_time(d)),
+            AnyComm::Unix(c) => AnyComm::Unix(c.limit_time(d)),
+        }
+    }
+    fn read(&mut self) -> Result<Capture, (std::io::ErrorKind, String, Capture)> {
+        match self {
+            AnyComm::Win(c) => c.read().map_err(|e| (e.kind(), e.to_string(), e.capture)),
+            AnyComm::Unix(c) => c.read().map_err(|e| (e.kind(), e.to_string(), e.capture)),
+        }
+    }
+}
+
 fn now_ns() -> u64 {
     let mut ts: libc::timespec = unsafe { std::mem::zeroed() };
     unsafe { simk::raw::clock_gettime(libc::CLOCK_MONOTONIC, &mut ts) };
@@ -92,13 +120,20 @@ fn run_one(v: &Value, vchild: &str, out: &mut Vec<String>) {
     }
     out.push(json!({"e":"reset","id":id,"piped":piped,"inlen":inlen}).to_string());
     let input: Option<Vec<u8>> = if has("in") { Some((0..inlen).map(|i| pat(0, i)).collect()) } else { None };
+    let unix_impl = v["impl"].as_str() == Some("unix");
+    let mut input = input;
+    let pcomm = if unix_impl { Some(p.communicate_start(input.take())) } else { None };
     let (si, so, se) = (p.stdin.take(), p.stdout.take(), p.stderr.take());
     let calls: Vec<Value> = v["calls"].as_array().unwrap().clone();
     let until_eof = v["until_eof"].as_bool().unwrap_or(false);
     let max_errors = v["max_errors"].as_u64().unwrap_or(1);
     let (tx, rx) = mpsc::channel::<String>();
     let worker = std::thread::spawn(move || {
-        let mut comm = Some(wincomm::communicate(si, so, se, input));
+        let mut comm = Some(if unix_impl {
+            AnyComm::Unix(pcomm.unwrap())
+        } else {
+            AnyComm::Win(wincomm::communicate(si, so, se, input))
+        });
         let mut delivered = [0u64; 3];
         let mut nerrs = 0u64;
         let mut eff_limit: i64 = -1;
@@ -142,10 +177,9 @@ fn run_one(v: &Value, vchild: &str, out: &mut Vec<String>) {
             let t1 = now_ns() - base;
             let (kind, cap, msg) = match r {
                 Ok(Ok(c)) => ("ok", Some(c), String::new()),
-                Ok(Err(e)) => {
-                    let k = if e.kind() == std::io::ErrorKind::TimedOut { "timedout" } else { "oserr" };
-                    let m = e.to_string();
-                    (k, Some(e.capture), m)
+                Ok(Err((kind, m, capture))) => {
+                    let k = if kind == std::io::ErrorKind::TimedOut { "timedout" } else { "oserr" };
+                    (k, Some(capture), m)
                 }
                 Err(_) => ("panic", None, String::new()),
             };
